@@ -341,7 +341,20 @@ def check_pure(ctx: Ctx) -> None:
             if isinstance(n, ast.Return) and n.value is not None:
                 ok = False
                 detail = f"cached function returns `{norm(n.value)}`"
-                if isinstance(n.value, ast.Call):
+                ann = norm(f.node.returns) if getattr(f.node, "returns", None) is not None else ""
+                ann_head = ann.split("[")[0].split(".")[-1]
+                imm_elems = all(t.strip().split("[")[0].split(".")[-1] in ("str", "int", "bool", "float", "bytes", "None", "Pattern", "...", "")
+                                for t in ann[ann.index("[") + 1:-1].split(",")) if "[" in ann else True
+                if isinstance(n.value, ast.Call) and ctx.prog.resolve_call(f, n.value) in ("re.compile", "regex.compile"):
+                    ok = True
+                    detail += ": a compiled pattern is immutable"
+                elif isinstance(n.value, (ast.JoinedStr, ast.Compare)) or (isinstance(n.value, ast.Tuple) and all(isinstance(e, ast.Constant) for e in n.value.elts)):
+                    ok = True
+                    detail += ": an immutable value"
+                elif ann_head in ("str", "int", "bool", "float", "bytes", "Pattern") or (ann_head in ("tuple", "Tuple", "frozenset") and imm_elems):
+                    ok = True
+                    detail += f": declared to return the immutable type `{ann}`"
+                elif isinstance(n.value, ast.Call):
                     r = repo.resolve_expr(n.value.func, f.module, f)
                     if isinstance(r, ClassInfo):
                         ok = r.qual not in stateful and not _has_instance_state(ctx, r)
